@@ -3,12 +3,35 @@ package value
 import (
 	"fmt"
 	"sync"
+	"sync/atomic"
 )
 
 var WaitGroupClass *Class // ::Std::Sync::WaitGroup
 
 type WaitGroup struct {
 	Native sync.WaitGroup
+	// Mirror of Native's counter. Go panics when the counter would drop below zero (and leaves it
+	// negative), so decrements are reserved here first and refused with an Elk error instead.
+	// Increments reach Native before the mirror, decrements the mirror before Native: the mirror
+	// never exceeds Native's counter, so a reserved decrement cannot make Native negative.
+	count atomic.Int64
+}
+
+func newNegativeWaitGroupError() Value {
+	return Ref(NewError(OutOfRangeErrorClass, "wait group counter cannot be negative"))
+}
+
+// reserve takes n off the mirror counter unless it would become negative.
+func (w *WaitGroup) reserve(n int) bool {
+	for {
+		c := w.count.Load()
+		if c < int64(n) {
+			return false
+		}
+		if w.count.CompareAndSwap(c, c-int64(n)) {
+			return true
+		}
+	}
 }
 
 func WaitGroupConstructor(class *Class) Value {
@@ -47,26 +70,43 @@ func (w *WaitGroup) InstanceVariables() *InstanceVariables {
 	return nil
 }
 
-func (w *WaitGroup) Add(n int) {
+func (w *WaitGroup) Add(n int) (err Value) {
+	if n < 0 {
+		return w.Remove(-n)
+	}
 	w.Native.Add(n)
+	w.count.Add(int64(n))
 	vhook("wg.add.ok", w, n)
+	return Undefined
 }
 
-func (w *WaitGroup) Remove(n int) {
+func (w *WaitGroup) Remove(n int) (err Value) {
+	if n < 0 {
+		return w.Add(-n)
+	}
+	if !w.reserve(n) {
+		return newNegativeWaitGroupError()
+	}
 	for range n {
 		w.Native.Done()
 	}
 	vhook("wg.remove.ok", w, n)
+	return Undefined
 }
 
 func (w *WaitGroup) Start() {
 	w.Native.Add(1)
+	w.count.Add(1)
 	vhook("wg.start.ok", w)
 }
 
-func (w *WaitGroup) End() {
+func (w *WaitGroup) End() (err Value) {
+	if !w.reserve(1) {
+		return newNegativeWaitGroupError()
+	}
 	w.Native.Done()
 	vhook("wg.end.ok", w)
+	return Undefined
 }
 
 func (w *WaitGroup) Wait() {
